@@ -9,7 +9,7 @@ for f in ("patch.diff", "demo.py"):
     shutil.copy(os.path.join(src, f), os.path.join(dst, f))
 m = json.load(open(os.path.join(src, "meta.json")))
 meta = {"property": prop, "summary": m.get("summary"), "needs": m.get("needs"),
-        "author": "independent sub-agent (second round) given only the property text, a one-paragraph description of the first round's change to avoid, and a scratch worktree",
+        "author": "independent sub-agent (third round) given only the property text, one paragraph each about the two earlier changes to avoid, and a scratch worktree",
         "confirmed": "patch applies to /repo HEAD of that time; `pytest tests` 138 passed with the change; demo.py exits 1 with the change and 0 without (tools/seedeval.sh)",
         "caught_by": [c for c in caught.split(",") if c], "detection_notes": notes,
         "how_to_rerun": "git -C /repo apply /verif/seeded/%s/patch.diff && (cd /verif && ./check %s quick); git -C /repo checkout -- ." % (sid, prop)}
